@@ -40,6 +40,14 @@ def run(R):
         r4(R)
     if R.want("C08.R5"):
         r5(R, m)
+    if R.want("C08.R6"):
+        r6(R, m)
+    if R.want("C08.R7"):
+        # "indexes ... within the hkl tolerance": the gate's count (cImageD11.score), the peaks claimed (score_and_assign via
+        # getind), the refinement (score_and_refine) and the Python references use ONE predicate.  Shared with C06.R3 / R4.
+        from rules import c06
+        tus6 = cfront.load(R.root, files=["closest.c"])
+        c06.r34(R, tus6, r3n="C08.R7", r4n="C08.R7")
 
 
 # --------------------------------------------------------------------------------------------------
@@ -329,29 +337,129 @@ def r1_npk(R, m, fn, cfg, app_stmt, ubiname):
         if not both:
             continue
         nv, uv = sib_names["npk"].value, sib_names[ubiname].value
-        # npk = npks[c]; UBI = LIST[c].copy(); npks = [self.score(x, tol) for x in LIST]; guard npks[c] >= npk
-        okshape = isinstance(nv, ast.Subscript) and isinstance(nv.value, ast.Name)
-        R.shape(okshape, "C08.R1", REL, "indexer.scorethem", "replacement count of the form <scores>[<choice>]")
-        ch = nows(src(nv.slice))
-        lst = nv.value.id
         base = uv.func.value if isinstance(uv, ast.Call) and isinstance(uv.func, ast.Attribute) and uv.func.attr == "copy" else uv
-        oku = isinstance(base, ast.Subscript) and nows(src(base.slice)) == ch
-        ldefs = assigns_to(fn, lst)
-        okl = False
-        if oku and len(ldefs) == 1 and isinstance(ldefs[0].value, ast.ListComp) and len(ldefs[0].value.generators) == 1:
-            lc = ldefs[0].value
-            g = lc.generators[0]
-            okl = isinstance(lc.elt, ast.Call) and nows(src(lc.elt.func)) == "self.score" and lc.elt.args \
-                and nows(src(lc.elt.args[0])) == nows(src(g.target)) and nows(src(g.iter)) == nows(src(base.value)) and not g.ifs
-        R.check(oku and okl, "C08.R1", REL, d.lineno, "indexer.scorethem",
-                "%s := %s with npk := %s, %s := %s" % (ubiname, src(uv), src(nv), lst, [src(x.value)[:60] for x in ldefs]),
-                "the replacement matrix and the replacement count are not the same entry of the candidate list and its scores")
+        if isinstance(nv, ast.Subscript) and isinstance(nv.value, ast.Name):
+            # form 1: npk = npks[c]; UBI = LIST[c].copy(); npks = [self.score(x, tol) for x in LIST]; guard npks[c] >= npk
+            ch = nows(src(nv.slice))
+            lst = nv.value.id
+            oku = isinstance(base, ast.Subscript) and nows(src(base.slice)) == ch
+            ldefs = assigns_to(fn, lst)
+            okl = False
+            if oku and len(ldefs) == 1 and isinstance(ldefs[0].value, ast.ListComp) and len(ldefs[0].value.generators) == 1:
+                lc = ldefs[0].value
+                g = lc.generators[0]
+                okl = isinstance(lc.elt, ast.Call) and nows(src(lc.elt.func)) == "self.score" and lc.elt.args \
+                    and nows(src(lc.elt.args[0])) == nows(src(g.target)) and nows(src(g.iter)) == nows(src(base.value)) and not g.ifs
+            R.check(oku and okl, "C08.R1", REL, d.lineno, "indexer.scorethem",
+                    "%s := %s with npk := %s, %s := %s" % (ubiname, src(uv), src(nv), lst, [src(x.value)[:60] for x in ldefs]),
+                    "the replacement matrix and the replacement count are not the same entry of the candidate list and its scores")
+        elif isinstance(nv, ast.Name) and isinstance(base, ast.Name):
+            # form 2: npk = m; UBI = W  with  m = self.score(W, tol)  and W not modified in place between that score and here
+            mdefs = assigns_to(fn, nv.id)
+            okm = len(mdefs) == 1 and isinstance(mdefs[0].value, ast.Call) and nows(src(mdefs[0].value.func)) == "self.score" \
+                and mdefs[0].value.args and nows(src(mdefs[0].value.args[0])) == base.id
+            R.check(okm, "C08.R1", REL, d.lineno, "indexer.scorethem",
+                    "%s := %s with npk := %s, %s := %s" % (ubiname, src(uv), src(nv), nv.id, [src(x.value)[:60] for x in mdefs]),
+                    "the replacement count is not the score of the replacement matrix")
+            if okm:
+                stale = [mu for mu in inplace_mutations(R, fn, base.id) if mu.lineno > mdefs[0].lineno and mu.lineno < d.lineno]
+                R.check(not stale, "C08.R1", REL, d.lineno, "indexer.scorethem", "%s unchanged between its scoring and the hand-over" % base.id,
+                        "the replacement matrix is modified in place after it was scored: %s" % [src(x)[:50] for x in stale])
+        else:
+            R.shape(False, "C08.R1", REL, "indexer.scorethem", "a replacement of the form (<list>[c], <scores>[c]) or (<matrix>, <its score>)")
         good = holds(facts, nows(src(nv)), ">=", "npk") or holds(facts, nows(src(nv)), ">", "npk")
         R.check(good, "C08.R1", REL, d.lineno, "indexer.scorethem", "%s replaced under %s" % (name, sorted(facts)),
                 "the count is replaced without the guard <new count> >= npk: it may drop to or below minpks after the gate "
                 "was passed")
     # the appended matrix is the variable handed to score_and_refine / getind
     R.inst("C08.R1", "npk/%s: %d + %d definitions examined" % (ubiname, len(defs_npk), len(defs_ubi)))
+
+
+# --------------------------------------------------------------------------------------------------
+_MUTATORS = {}
+
+
+def mutating_kernels(R):
+    """compiled routines that overwrite their first (matrix) argument: read from the .pyf intent of that argument"""
+    if R.root in _MUTATORS:
+        return _MUTATORS[R.root]
+    from engine import iface
+    fns, order = iface.crack(R.path("src/_cImageD11.pyf"))
+    out = set()
+    for n, b in fns.items():
+        if not b["args"]:
+            continue
+        v = b["vars"][b["args"][0]]
+        intent = v.get("intent") or []
+        if v.get("dimension") and ("inout" in intent or "out" in intent or "inplace" in intent):
+            out.add(n)
+    _MUTATORS[R.root] = out
+    return out
+
+
+def inplace_mutations(R, fn, name):
+    """statements of fn that change the array bound to `name` without rebinding the name"""
+    muts = mutating_kernels(R)
+    out = []
+    # plain aliases  W = name  (no copy) share the array
+    aliases = {name}
+    changed = True
+    while changed:
+        changed = False
+        for a in ast.walk(fn):
+            if isinstance(a, ast.Assign) and isinstance(a.value, ast.Name) and a.value.id in aliases:
+                for t in a.targets:
+                    if isinstance(t, ast.Name) and t.id not in aliases:
+                        aliases.add(t.id)
+                        changed = True
+    for n in ast.walk(fn):
+        if isinstance(n, ast.Call) and n.args and isinstance(n.args[0], ast.Name) and n.args[0].id in aliases:
+            d = (dotted(n.func) or "").split(".")[-1]
+            if d in muts:
+                out.append(n)
+        elif isinstance(n, (ast.Assign, ast.AugAssign)):
+            ts = n.targets if isinstance(n, ast.Assign) else [n.target]
+            for t in ts:
+                if isinstance(t, ast.Subscript) and isinstance(t.value, ast.Name) and t.value.id in aliases:
+                    out.append(n)
+                if isinstance(n, ast.AugAssign) and isinstance(t, ast.Name) and t.id in aliases:
+                    out.append(n)
+    return out
+
+
+def r6(R, m):
+    R.rule("C08.R6", "the matrix that is appended to self.ubis is not modified in place (score_and_refine & co., slice stores, "
+                     "augmented assignment) after the count that passed the minpks gate was taken: what is reported is what was "
+                     "counted")
+    fn = method(m, "indexer.scorethem")
+    apps = [c for c in ast.walk(fn) if isinstance(c, ast.Call) and nows(src(c.func)) == "self.ubis.append" and c.args]
+    R.shape(len(apps) == 1 and isinstance(apps[0].args[0], ast.Name), "C08.R6", REL, "indexer.scorethem", "self.ubis.append(<name>)")
+    v = apps[0].args[0].id
+    muts_k = mutating_kernels(R)
+    R.shape("score_and_refine" in muts_k, "C08.R6", "src/_cImageD11.pyf", "score_and_refine", "first argument declared intent(inout)")
+    defs = assigns_to(fn, v)
+    R.shape(bool(defs), "C08.R6", REL, "indexer.scorethem", "definitions of %s" % v)
+    first = min(d.lineno for d in defs)
+    bad = [mu for mu in inplace_mutations(R, fn, v) if first < mu.lineno < apps[0].lineno]
+    for mu in bad:
+        R.violation("C08.R6", REL, mu.lineno, "indexer.scorethem", "%s modifies %s in place before self.ubis.append(%s)" % (src(mu)[:60], v, v),
+                    "the least-squares refinement overwrites the matrix after npk > self.minpks was tested and the count is not taken "
+                    "again: the reported matrix can index fewer than minpks + 1 peaks (and self.scores records the count of a "
+                    "matrix that was not kept)")
+    R.inst("C08.R6", "%s: %d in-place modifications between its definition and the append" % (v, len(bad)), ok=not bad)
+    # any refinement in scorethem works on a matrix that is scored afterwards
+    nref = 0
+    for c in ast.walk(fn):
+        if isinstance(c, ast.Call) and (dotted(c.func) or "").split(".")[-1] in muts_k and c.args and isinstance(c.args[0], ast.Name):
+            w = c.args[0].id
+            if w == v:
+                continue
+            nref += 1
+            rescored = [a for a in ast.walk(fn) if isinstance(a, ast.Assign) and isinstance(a.value, ast.Call)
+                        and nows(src(a.value.func)) == "self.score" and a.value.args and nows(src(a.value.args[0])) == w and a.lineno > c.lineno]
+            R.check(bool(rescored), "C08.R6", REL, c.lineno, "indexer.scorethem", "%s refined then scored again" % w,
+                    "a refined matrix is used without its peak count being taken again")
+    R.note("C08.R6: kernels that overwrite their first argument per the .pyf: %s" % sorted(muts_k))
 
 
 # --------------------------------------------------------------------------------------------------
